@@ -326,6 +326,8 @@ def run_leaf(case):
         with np.errstate(all='ignore'):
             marks = np.asarray(filled == fv)
         facts['fill_marks_exactly_the_mask'] = bool(np.array_equal(marks, m))
+        # structural condition of the recorded defect F17.12: NO element for which `filled == fill_value` agrees with the mask
+        facts['fill_mark_agrees_nowhere'] = bool(v.size > 0 and not np.any(marks == m))
         facts['masked'] = int(m.sum())
         facts['size'] = int(v.size)
     if mode == 'alone':
@@ -832,6 +834,13 @@ def api_format_errors():
                 probs.append('unknown LegCharge format: saving did not raise')
             except ValueError:
                 pass
+            hdf5_io.save_to_hdf5(f, leg, 'leg_bad_format')
+            f['leg_bad_format'].attrs['format'] = 'no_such_format'
+            try:
+                hdf5_io.load_from_hdf5(f, 'leg_bad_format')
+                probs.append('unknown LegCharge format in the file: loading did not raise')
+            except ValueError:
+                pass
             sv = hdf5_io.Hdf5Saver(f)
             if sv.format_selection != {} or hdf5_io.Hdf5Saver(f, {'LegCharge': 'compact'}).format_selection != {'LegCharge': 'compact'}:
                 probs.append('Hdf5Saver.format_selection is not the given dictionary')
@@ -965,7 +974,7 @@ def public_names():
         for n, o in vars(cls).items():
             if n.startswith('_') and n != '__init__':
                 continue
-            if callable(o) or isinstance(o, (staticmethod, classmethod)):
+            if inspect.isfunction(o) or isinstance(o, (staticmethod, classmethod)):
                 out['methods'][cn + '.' + n] = 'method'
             else:
                 out['methods'][cn + '.' + n] = 'attribute'
@@ -973,76 +982,75 @@ def public_names():
 
 
 def inventory():
-    ac = anchored_code_objects()
-    return {'leaves': list_leaves(), 'public': public_names(), 'anchored': [[f, q, l, len(lines)] for (f, q, l), lines in sorted(ac.items())],
-            'api': sorted(API_SCENARIOS), 'reduce': sorted(reduce_objects())}
+    return {'leaves': list_leaves(), 'public': public_names(), 'anchored': anchored_table(), 'api': sorted(API_SCENARIOS), 'reduce': sorted(reduce_objects()),
+            'monitoring': hasattr(sys, 'monitoring')}
 
 
 # ------------------------------------------------------------------------------------------------
-# trace: line coverage of the anchored functions
+# line coverage of the anchored functions (sys.monitoring: PY_START once per code object, LINE once per line -> no measurable overhead);
+# switched on in EVERY runner process of C17 (payload key 'cov_dir'), the harness takes the union
 # ------------------------------------------------------------------------------------------------
 
-def run_trace(payload):
-    import c17_gen
+_COV = {'hits': {}, 'on': False}
+
+
+def start_cov():
+    mon = getattr(sys, 'monitoring', None)
+    if mon is None or _COV['on']:
+        return
     root = tenpy_dir()
-    hits = {}
-
-    def want(code):
-        fn = code.co_filename
-        return fn.startswith(root) and (fn.endswith(os.path.join('tools', 'hdf5_io.py')) or code.co_name in ANCHOR_NAMES)
-
-    def tracer(frame, event, arg):
-        code = frame.f_code
-        if not want(code):
-            return None
-        s = hits.setdefault((os.path.relpath(code.co_filename, root), code.co_firstlineno), set())
-
-        def local(frame, event, arg):
-            if event == 'line':
-                s.add(frame.f_lineno)
-            return local
-        return local
-    ran = {'objects': 0, 'leaves': 0, 'api': 0, 'reduce': 0, 'graphs': 0, 'errors': []}
-    sys.settrace(tracer)
+    hio = os.path.join('tools', 'hdf5_io.py')
+    tool = mon.COVERAGE_ID
     try:
-        for spec in payload.get('specs', []):
-            r = c17_impl.run_object(spec)
-            ran['objects'] += 1
-            if 'gen_error' in r:
-                ran['errors'].append('%s: %s' % (spec['gen'], r['gen_error'][-200:]))
-        for case in payload.get('leaves', []):
-            run_leaf(case)
-            ran['leaves'] += 1
-        for name in payload.get('api', []):
-            run_api(name)
-            ran['api'] += 1
-        for name in payload.get('reduce', []):
-            run_reduce_case(name)
-            ran['reduce'] += 1
-        if payload.get('old_reduce'):
-            c17_impl.run_reduce({})
-            c17_impl.run_states({})
-        for case in payload.get('graphs', []):
-            c17_impl.run_graph(case)
-            ran['graphs'] += 1
-    finally:
-        sys.settrace(None)
+        mon.use_tool_id(tool, 'c17cov')
+    except ValueError:
+        return
+    E = mon.events
+
+    def on_start(code, offset):
+        fn = code.co_filename
+        if fn.startswith(root) and (fn.endswith(hio) or code.co_name in ANCHOR_NAMES):
+            _COV['hits'].setdefault((os.path.relpath(fn, root), code.co_firstlineno), set())
+            mon.set_local_events(tool, code, E.LINE)
+        return mon.DISABLE
+
+    def on_line(code, line):
+        _COV['hits'].setdefault((os.path.relpath(code.co_filename, root), code.co_firstlineno), set()).add(line)
+        return mon.DISABLE
+    mon.register_callback(tool, E.PY_START, on_start)
+    mon.register_callback(tool, E.LINE, on_line)
+    mon.set_events(tool, E.PY_START)
+    _COV['on'] = True
+
+
+def dump_cov(cov_dir, kind):
+    if not _COV['on']:
+        return
+    out = [[f, first, sorted(lines)] for (f, first), lines in _COV['hits'].items()]
+    fn = os.path.join(cov_dir, 'cov_%s_%d.json' % (kind, os.getpid()))
+    with open(fn + '.tmp', 'w') as fh:
+        json.dump(out, fh)
+    os.replace(fn + '.tmp', fn)
+
+
+def anchored_table():
+    """static table: every anchored function with its executable lines (line number, text)"""
+    root = tenpy_dir()
     out = []
     srcs = {}
     for (f, q, first), lines in sorted(anchored_code_objects().items()):
-        got = hits.get((f, first), set())
         if f not in srcs:
             srcs[f] = open(os.path.join(root, f)).read().split('\n')
-        un = sorted(lines - got)
-        out.append({'file': f, 'name': q, 'first': first, 'lines': len(lines), 'hit': len(lines & got), 'called': bool(got) or not lines,
-                    'unhit': [[l, srcs[f][l - 1].strip()[:110]] for l in un]})
-    return {'functions': out, 'ran': ran}
+        out.append({'file': f, 'name': q, 'first': first, 'lines': [[l, srcs[f][l - 1].strip()[:110]] for l in sorted(lines)]})
+    return out
 
 
 def main():
     fin, fout = sys.argv[1], sys.argv[2]
     payload = json.load(open(fin))
     kind = payload['kind']
+    if payload.get('cov_dir'):
+        start_cov()
     if kind == 'inventory':
         res = inventory()
     elif kind == 'leaves':
@@ -1061,10 +1069,10 @@ def main():
                 res[n] = run_reduce_case(n)
             except Exception:
                 res[n] = {'runner_error': traceback.format_exc()[-800:]}
-    elif kind == 'trace':
-        res = run_trace(payload)
     else:
         raise ValueError(kind)
+    if payload.get('cov_dir'):
+        dump_cov(payload['cov_dir'], kind)
     with open(fout, 'w') as f:
         json.dump(res, f, default=str)
 
